@@ -15,6 +15,7 @@ mod strspec;
 mod p03;
 mod p10;
 mod p11;
+mod p16;
 mod p23;
 mod p25;
 mod p29;
@@ -56,6 +57,7 @@ fn main() {
         "C09" => p09::run(&mut ctx),
         "C10" => p10::run(&mut ctx),
         "C11" => p11::run(&mut ctx),
+        "C16" => p16::run(&mut ctx),
         "C23" => p23::run(&mut ctx),
         "C25" => p25::run(&mut ctx),
         "C29" => p29::run(&mut ctx),
